@@ -30,8 +30,8 @@ from concurrent.futures import ThreadPoolExecutor
 
 ROOT = os.path.dirname(os.path.dirname(os.path.abspath(__file__)))
 REPO = os.environ.get('VERIF_REPO', '/repo')
-LIST = os.path.join(ROOT, 'tools', 'mutants', 'auto_list.json')
-RESULTS = os.path.join(ROOT, 'tools', 'mutants', 'auto_results.jsonl')
+LIST = os.environ.get('AUTO_LIST') or os.path.join(ROOT, 'tools', 'mutants', 'auto_list.json')
+RESULTS = os.environ.get('AUTO_RESULTS') or os.path.join(ROOT, 'tools', 'mutants', 'auto_results.jsonl')
 
 # first pass: the checks most likely to notice; `run --survivors --all-checks`
 # takes the survivors through the remaining ones
